@@ -2,6 +2,7 @@ package main
 
 import (
 	"fmt"
+	"strconv"
 	"strings"
 )
 
@@ -60,6 +61,9 @@ func c03Scripts(g *Gen, id string, kind byte) []Action {
 	case 7:
 		if rng.Chance(1, 3) {
 			return []Action{{Op: "obs"}, {Op: "cancelreq"}, {Op: "next"}, {Op: "obs"}}
+		}
+		if rng.Chance(1, 2) {
+			return []Action{{Op: "obs"}, {Op: "buildurl", S: "route" + strconv.Itoa(rng.Intn(4))}, {Op: "next"}, {Op: "obs"}}
 		}
 	}
 	return nil
